@@ -23,6 +23,21 @@ def uninstall_result_probe():
     am.RepositoryMirror.mirror = _ORIG_MIRROR
 
 
+L2_LOG = []   # (url, disagreements) of every L2 comparison since the last flush
+
+
+def flush_l2(chk, replay):
+    """report the L2 (whole-run model) comparisons collected since the last call under the scenario `replay`"""
+    global L2_LOG
+    log, L2_LOG = L2_LOG, []
+    for url, dis in log:
+        chk.count("l2_runs_compared_with_Model/Mirror")
+        if dis:
+            chk.violation("correspondence-mirror-run", dict(replay, disagreement=dis, repository=url,
+                          correspondence="Model/Mirror.lean run/transfers/removals vs a real run that ended without error (pool queue and skip-clean as observed, tree before and after)"),
+                          f"{url}: {dis[0]}", no_input=True)
+
+
 def tree(sb, url):
     d = runner.mirror_dir(sb, url)
     if not os.path.isdir(d):
@@ -58,6 +73,10 @@ def execute(sb, repos, stores, plans, chooser=None, on_fs_event=None, switch=Non
     from . import observe
     obs = observe.Obs()
     obs.install()
+    from apt_mirror.download.url import URL
+    before = {}
+    for rp in repos:
+        before[rp["url"]] = observe.pool_listing(runner.mirror_dir(sb, rp["url"]))
 
     def pre(apt, config):
         if pre_run:
@@ -68,6 +87,21 @@ def execute(sb, repos, stores, plans, chooser=None, on_fs_event=None, switch=Non
     finally:
         obs.uninstall()
     res.obs = obs
+    # L2 correspondence (Model/Mirror.lean) for every repository whose run ended without error with automatic cleaning
+    res.l2 = {}
+    try:
+        for u, r in obs.repos.items():
+            key = next((k for k in before if k.rstrip("/") == u.rstrip("/")), None)
+            if key is None or res.exit not in (0, 1):
+                continue
+            base = u.rstrip("/") + "/"
+            requested = [x[len(base):].split("/") for x in res.net.log if x.startswith(base)]
+            d = observe.mirror_run_disagreements(r, before[key], observe.pool_listing(r["mirror_dir"]), requested)
+            if d is not None:
+                res.l2[u] = d
+                L2_LOG.append((u, d))
+    except Exception as ex:  # a harness problem must not masquerade as a finding
+        res.l2_error = repr(ex)
     res.repo_results = {u: r["result"] for u, r in obs.repos.items()}
     res.handler = handler
     return res
